@@ -330,10 +330,28 @@ func (e *C17) syncLevel(ctx *core.Ctx) {
 		}
 		return simapi.NoFault
 	}
+	// in a third of the syncs another actor removes one of the pods between the sync's listing and
+	// its Delete (that Delete answers NotFound) while other calls of the same batch fail
+	oneGone := mode != "create" && r.Intn(3) == 0
+	if oneGone {
+		jit := ctl.CERS.Hook
+		var once sync.Once
+		ctl.CERS.Hook = func(phase string, call *simapi.Call) {
+			if phase == "pre" && call.Verb == "delete" && call.Kind == simapi.KindPod {
+				once.Do(func() {
+					s.Remove(simapi.KindPod, call.NS, call.Name)
+					ctx.Count("C17.sync-level-pod-gone-before-delete")
+				})
+			}
+			if jit != nil {
+				jit(phase, call)
+			}
+		}
+	}
 	out := ctl.Reconcile("ers", "ns", "foo-b", "C")
 	s.Fault = nil
 	ctx.Count("evaluations")
-	attrs := map[string]string{"mode": mode, "role": role}
+	attrs := map[string]string{"mode": mode, "role": role, "onePodGone": fmt.Sprint(oneGone)}
 	if out.Panic != "" {
 		attrs["panic"] = out.Panic
 		ctx.Violation("C17", "C17.no-panic", attrs, nil)
@@ -346,11 +364,20 @@ func (e *C17) syncLevel(ctx *core.Ctx) {
 		}
 	}
 	failed := nFailed["create"] + nFailed["delete"]
-	if statusWrite == nil || failed == 0 {
+	if failed == 0 {
 		ctx.Count("C17.sync-level-no-failure")
 		return
 	}
 	ctx.Count("C17.sync-level-judged")
+	// "reflected in the error the sync reports": a sync in which pod calls failed does not return success
+	if out.Err == nil {
+		ctx.Violation("C17", "C17.error-reported-by-sync", attrs, map[string]any{"mode": mode, "nodes": n, "failedCalls": nFailed, "statusWritten": statusWrite != nil})
+	}
+	if statusWrite == nil {
+		// no status write at all (none was refused here): the conditions cannot reflect anything
+		ctx.Violation("C17", "C17.error-reflected-in-condition", merge(attrs, "condition", "no-status-write"), map[string]any{"mode": mode, "nodes": n, "failedCalls": nFailed, "returnedErr": fmt.Sprint(out.Err)})
+		return
+	}
 	st := statusWrite.Submitted.(*v1.ExtendedDaemonSetReplicaSet).Status
 	desc := map[string]any{"mode": mode, "nodes": n, "failedCalls": nFailed, "conditions": fmt.Sprintf("%+v", st.Conditions), "returnedErr": fmt.Sprint(out.Err)}
 	// "reflected in ... the replica set's ReconcileError or PodsCleanupDone condition"
